@@ -8068,6 +8068,7 @@ void SoPlexBase<R>::_removeRowsReal(int perm[])
 {
    assert(_realLP != nullptr);
 
+   const int oldsize = numRows();
    _realLP->removeRows(perm);
 
    if(_isRealLPLoaded)
@@ -8076,14 +8077,16 @@ void SoPlexBase<R>::_removeRowsReal(int perm[])
    }
    else if(_hasBasis)
    {
-      for(int i = numRows() - 1; i >= 0 && _hasBasis; i--)
+      // the survivors keep their order (perm[i] <= i), so the statuses are moved in ascending order over the
+      // dimension before the removal
+      for(int i = 0; i < oldsize && _hasBasis; i++)
       {
          if(perm[i] < 0 && _basisStatusRows[i] != SPxSolverBase<R>::BASIC)
             _hasBasis = false;
          else if(perm[i] >= 0 && perm[i] != i)
          {
             assert(perm[i] < numRows());
-            assert(perm[perm[i]] < 0);
+            assert(perm[i] < i);
 
             _basisStatusRows[perm[i]] = _basisStatusRows[i];
          }
@@ -8134,6 +8137,7 @@ void SoPlexBase<R>::_removeColsReal(int perm[])
 {
    assert(_realLP != nullptr);
 
+   const int oldsize = numCols();
    _realLP->removeCols(perm);
 
    if(_isRealLPLoaded)
@@ -8142,14 +8146,16 @@ void SoPlexBase<R>::_removeColsReal(int perm[])
    }
    else if(_hasBasis)
    {
-      for(int i = numCols() - 1; i >= 0 && _hasBasis; i--)
+      // the survivors keep their order (perm[i] <= i), so the statuses are moved in ascending order over the
+      // dimension before the removal
+      for(int i = 0; i < oldsize && _hasBasis; i++)
       {
          if(perm[i] < 0 && _basisStatusCols[i] == SPxSolverBase<R>::BASIC)
             _hasBasis = false;
          else if(perm[i] >= 0 && perm[i] != i)
          {
             assert(perm[i] < numCols());
-            assert(perm[perm[i]] < 0);
+            assert(perm[i] < i);
 
             _basisStatusCols[perm[i]] = _basisStatusCols[i];
          }
